@@ -32,6 +32,7 @@ except ImportError:
     from collections import Mapping
 
 import textwrap
+from itertools import takewhile
 
 from pybtex.exceptions import PybtexError
 from pybtex.utils import (
@@ -765,6 +766,12 @@ class Person(object):
             return False
 
         def special_char_islower(special_char):
+            # the foreign characters built into BibTeX have a case of their own
+            name = ''.join(takewhile(lambda char: char.isalpha(), special_char[1:]))
+            if name in ('i', 'j', 'oe', 'ae', 'aa', 'o', 'l', 'ss'):
+                return True
+            if name in ('OE', 'AE', 'AA', 'O', 'L'):
+                return False
             control_sequence = True
             for char in special_char[1:]:  # skip the backslash
                 if control_sequence:
